@@ -19,3 +19,4 @@ def check(ctx, env):
     R.r5_2_timeout(ctx, prog, rule="R12.3")
     R.r5_2_finished(ctx, prog, rule="R12.3")
     R.r5_4_who_may_write(ctx, prog, rule="R12.4")
+    R.r12_5_limit_passthrough(ctx, prog)
